@@ -399,6 +399,46 @@ func TestMineConcurrent(t *testing.T) {
 	})
 }
 
+// ---- many calls with an already cancelled context, from many goroutines ----
+
+type stormCase struct {
+	Workers    int `json:"workers"`
+	Goroutines int `json:"goroutines"`
+	Calls      int `json:"calls"` // per goroutine
+	K          int `json:"k"`
+}
+
+func TestCancelledStorm(t *testing.T) {
+	h.Run(t, h.Sub[stormCase]{
+		Prop: "C11", Name: "cancelled-call-storm", N: 8, MaxN: 400,
+		Gen: func(t *rapid.T) stormCase {
+			return stormCase{Workers: h.OneOf(t, "workers", 1, 2, 4, 8), Goroutines: h.OneOf(t, "g", 4, 16), Calls: 400, K: rapid.IntRange(14, 30).Draw(t, "k")}
+		},
+		Check: func(c stormCase) (h.Info, error) {
+			info := h.Info{Class: fmt.Sprintf("storm/workers=%d", c.Workers), NT: true}
+			w := pow.New(c.Workers)
+			ctx, cancel := context.WithCancel(context.Background())
+			cancel()
+			err := h.Parallel(c.Goroutines, func(g int) error {
+				data := []byte{byte(g), byte(g >> 8), 7}
+				target := boundary(c.K, len(data)+8)
+				for i := 0; i < c.Calls; i++ {
+					nonce, err := w.Mine(ctx, data, target)
+					if err != nil {
+						continue
+					}
+					if got := pow.Score(msgOf(data, nonce)); !(got >= target) {
+						return fmt.Errorf("call %d of goroutine %d (%d goroutines x %d calls with an already cancelled context, %d workers, target 3^%d/len): Mine returned nonce %d WITHOUT error although its Score %v is below the target %v", i, g, c.Goroutines, c.Calls, c.Workers, c.K, nonce, got, target)
+					}
+				}
+				return nil
+			})
+			return info, err
+		},
+		Rule: "schedules: 4..16 goroutines each issue 400 Mine calls with an already cancelled context and a target needing 14..30 zero trits (1..8 workers): whatever is returned without error must meet the target (a rare interleaving of the workers' exit and the caller's result handling must not produce a made-up nonce); all non-trivial",
+	})
+}
+
 // boundary targets: fl(3^k/len) and its neighbours
 func boundary(k int, ell int) float64 {
 	r := new(big.Rat).SetFrac(ref.Pow3(k), big.NewInt(int64(ell)))
